@@ -273,6 +273,19 @@ def run_case(rng, idx, tier, lane, ctx):
             else:
                 x0b = list(x0)
                 m.initial_time = t0b
+            # assignments that are (rightly) refused must leave the initial values in force untouched
+            for badset in rng.sample([lambda: setattr(m, "initial_time", (t0b + 0.37, 10.0)),
+                                      lambda: setattr(m, "initial_state", list(x0b) + [1.0, 2.0]),
+                                      lambda: setattr(m, "initial_values", (list(x0b), (t0b - 0.21, 3.0))),
+                                      lambda: setattr(m, "initial_time", "soon")], rng.randint(1, 3)):
+                try:
+                    badset()
+                    # pygom took it (it does not validate the length of an initial state): that value is then simply in force, and the
+                    # valid initial values are assigned again - only a REFUSED assignment is required to leave no trace
+                    counters["refused_assignments_accepted"] = counters.get("refused_assignments_accepted", 0) + 1
+                    m.initial_values = (list(x0b), t0b)
+                except Exception:
+                    counters["refused_assignments"] = counters.get("refused_assignments", 0) + 1
             rs = RI.reference(f, x0b, t0b, g, jac=jac, stiff_hint=(lane == "catalogue" and cls[1] == "cat-Robertson"))
             if rs.ok:
                 counters["reinitialised_rounds"] = counters.get("reinitialised_rounds", 0) + 1
